@@ -191,8 +191,17 @@ func (c *c06Gen) bundle(s *ast.Schema) {
 	}
 	switch c.r.intn(4) {
 	case 0: // discriminable union of struct references
-		s.AddObject(ast.NewObject(pkg, "K1", ast.NewStruct(constField("kind", "k1"), ast.NewStructField("v", c.leaf()))))
-		s.AddObject(ast.NewObject(pkg, "K2", ast.NewStruct(constField("kind", "k2"))))
+		k1 := []ast.StructField{constField("kind", "k1"), ast.NewStructField("v", c.leaf())}
+		k2 := []ast.StructField{constField("kind", "k2")}
+		if c.r.chance(50) { // several candidate discriminators: the sorted-first one must win
+			k1 = append([]ast.StructField{constField("type", "t1")}, k1...)
+			k2 = append(k2, constField("type", "t2"), constField("a", "x"))
+			if c.r.chance(50) {
+				k1 = append(k1, constField("a", "y"))
+			}
+		}
+		s.AddObject(ast.NewObject(pkg, "K1", ast.NewStruct(k1...)))
+		s.AddObject(ast.NewObject(pkg, "K2", ast.NewStruct(k2...)))
 		u := ast.NewDisjunction(ast.Types{ast.NewRef(pkg, "K1"), ast.NewRef(pkg, "K2")})
 		if c.r.chance(30) {
 			u.Disjunction.Branches = append(u.Disjunction.Branches, ast.Null())
